@@ -122,7 +122,8 @@ namespace {
          tracked.snapshot();
       }
       // prints the whole unit with a fresh printer on a fresh stream; 0 = completed, 1 = logic_error
-      int print(bool locations, std::ostringstream*& os) { os = new std::ostringstream; Printer pp { lx, *os }; pp.print_locations = locations; return vp_outcome([&] { pp << unit; }); }
+      // (the printer lives on the heap and dies after the print, so successive fresh printers are distinct objects, as in a client that keeps several)
+      int print(bool locations, std::ostringstream*& os) { os = new std::ostringstream; Printer* pp = new Printer { lx, *os }; pp->print_locations = locations; int r = vp_outcome([&] { *pp << unit; }); delete pp; return r; }
    };
    History make_history() {
 #if C17_FULL
